@@ -152,7 +152,7 @@ func CheckImage(dir string, cfg Cfg, refs map[uint64]*txRef, maxAcked uint64, re
 		res.violf("CommittedAlh is not the Alh of the last committed tx %d", cid)
 	}
 
-	ctx, cancel := context.WithTimeout(context.Background(), 10*time.Second)
+	ctx, cancel := context.WithTimeout(context.Background(), 90*time.Second)
 	defer cancel()
 
 	// proof failures are held back until the hash tree has been cross-checked through the BlRoot
@@ -237,10 +237,10 @@ func CheckImage(dir string, cfg Cfg, refs map[uint64]*txRef, maxAcked uint64, re
 					}
 				}
 			}()
-			hdr, err = commitKVs(st, kvs, false, 10*time.Second)
+			hdr, err = commitKVs(st, kvs, false, 90*time.Second)
 			close(done)
 		} else {
-			hdr, err = commitKVs(st, kvs, false, 10*time.Second)
+			hdr, err = commitKVs(st, kvs, false, 90*time.Second)
 		}
 		if err != nil {
 			res.violf("a fresh commit after recovery fails: %v", err)
